@@ -32,6 +32,8 @@ JudgeCL(rec) ==
             "input ending inside an entry gave a silently shortened list">>,
           <<\A c \in 1..Len(rec.faults) : ~rec.faults[c].panic /\ (rec.faults[c].ok => rec.faults[c].n >= n),
             "a source that fails with an I/O error gave a silently shortened list">>,
+          <<\A z \in 1..Len(rec.tz) : rec.tz[z].ok = rec.full.ok /\ rec.tz[z].ids = rec.full.ids,
+            "the entries (their instants or zone offsets) depend on the time zone the process runs in">>,
           <<bad = {}, "a prefix of the changelog parsed to the wrong number of entries">>,
           <<prefixSame, "entries returned for a prefix differ from those of the full text">>,
           <<stepsOK, "repeated ParseOne does not deliver each entry and then end of input">> >>)
